@@ -36,7 +36,9 @@ PARTNER = {
 ONE = {
     'S': ['salloc X 8 1', 'salloc X 0 1', 'sget X', 'sunique X', 'sreset X', 'sshare X X', 'sswap X X'],
     'W': ['wreset X', 'wswap X X'],
-    'U': ['ualloc X 8 1', 'ualloc X 0 -1', 'uget X', 'urelease X', 'ureset X'],
+    # (uswap X X: a self-swap of a proper object is outside the domain - cstl_swap would memcpy a member onto itself -
+    # but on a stray copy the guarded read comes first and must abort)
+    'U': ['ualloc X 8 1', 'ualloc X 0 -1', 'uget X', 'urelease X', 'ureset X', 'uswap X X'],
     # (the unrepresentable requests take cstl_array_alloc's early-return path)
     'A': ['aalloc X 3 4', 'aalloc X 0 0', 'aalloc X 9223372036854775807 4', 'aalloc X 18446744073709551615 1',
           'aalloc X 2305843009213693950 8', 'aset X 1 5 4', 'arelease X', 'adata X', 'aat X 0', 'aat X 7', 'areset X',
@@ -148,6 +150,11 @@ class C20(MemSpec):
                         'nothing), and is not copied back onto the address '
                         'stored in it (both would be a leak / resurrection the guard cannot see)',
                         'objects are used at their C type']
+
+    def oracle_only(self, c):
+        # a unique pointer swapped with itself is outside the model's domain (cstl_swap would copy a member onto itself);
+        # through a stray copy the guarded read comes first and must abort: judged by the reference oracle alone
+        return any(o.split()[0] == 'uswap' and len(o.split()) >= 3 and o.split()[1] == o.split()[2] for o in c.ops)
 
     def closure(self, tier):
         cases, st = self.closures([('stray', 250 if tier == 'quick' else 2500), ('guarded', 40 if tier == 'quick' else 1000)])
